@@ -231,6 +231,109 @@ func blankDoneRetry(w *fw.Worker, i int, r *fw.Rand, prop string) {
 	w.Distinct("blank-done-retry")
 }
 
+// c08DoubleDone: one of several watchers calls Done twice. The others are still watching: their reports must be
+// installed and new callbacks accepted.
+func c08DoubleDone(w *fw.Worker, i int, r *fw.Rand) {
+	n := r.Range(2, 3)
+	desc := map[string]any{"mode": "one-watcher-calls-done-twice", "watchers": n}
+	w.BeginDesc(i, "double-done")
+	e, err := conc.Start(context.Background(), r.U64(), conc.Opts{NSrc: n}, nil)
+	if err != nil {
+		w.Violation(i, "config-failed", err.Error(), desc)
+		return
+	}
+	defer e.Stop()
+	ctx := e.S.Ctx
+	// all but one watcher finish, the first of them twice (in some cases before, in some after the others)
+	quitters := n - 1
+	twiceFirst := r.Bool()
+	if twiceFirst {
+		e.Srcs[0].WA().Done(ctx)
+		e.Srcs[0].WA().Done(ctx)
+	}
+	for k := 0; k < quitters; k++ {
+		if !(twiceFirst && k == 0) {
+			e.Srcs[k].WA().Done(ctx)
+		}
+	}
+	if !twiceFirst {
+		e.Srcs[0].WA().Done(ctx)
+	}
+	survivor := n - 1
+	l := e.RandLayer(r, 0, 0)
+	rctx, cancel := context.WithTimeout(ctx, 5*time.Second)
+	rerr := e.Srcs[survivor].Report(rctx, l, true)
+	cancel()
+	w.Count("double_done_cases", 1)
+	if rerr != nil {
+		s1, g := monitorState()
+		w.Violation(i, "live-watchers-report-lost-after-another-watcher-called-done-twice", fmt.Sprintf("a blocking report of the last live watcher failed (%v); monitor state: %s", rerr, s1), map[string]any{"case": desc, "goroutine": fw.TrimStack(g)})
+		return
+	}
+	want := l.Apply(conc.DefaultsFP())
+	if got := conc.FPOf(e.D.View()); got != want {
+		w.Violation(i, "view-not-last-report-after-double-done", fmt.Sprintf("view %+v, want %+v", got, want), desc)
+		return
+	}
+	_, tok := e.D.ViewVersion()
+	if un := e.D.RegisterCallback(ctx, tok, func(context.Context, *conc.Cfg, *conc.Cfg) {}); un == nil {
+		w.Violation(i, "register-refused-while-a-watcher-is-live", "RegisterCallback returned nil although one watcher has not called Done and the context is alive", desc)
+		return
+	}
+	w.Distinct(fmt.Sprintf("double-done|%d|%v", n, twiceFirst))
+}
+
+// c08BlankRefusal: a Blank holding a watching inner source refuses a replacement. The refusal must leave the Blank
+// usable: Done, Value and further SetSource calls return.
+func c08BlankRefusal(w *fw.Worker, i int, r *fw.Rand) {
+	desc := map[string]any{"mode": "blank-refuses-replacement-then-is-used-again"}
+	w.BeginDesc(i, "blank-refusal")
+	c, err := c07Start(r, true, conc.Opts{NSrc: 2})
+	if err != nil {
+		w.Violation(i, "config-failed", err.Error(), desc)
+		return
+	}
+	e := c.e
+	defer e.Stop()
+	ctx := e.S.Ctx
+	inner := &conc.WSrc{Src: conc.Src{Name: "inner-watcher", Init: e.RandLayer(r, 0, 0)}}
+	if serr := c.blank.SetSource(ctx, inner); serr != nil {
+		w.Violation(i, "blank-setsource-failed", serr.Error(), desc)
+		return
+	}
+	if serr := c.blank.SetSource(ctx, &conc.Src{Name: "replacement", Init: e.RandLayer(r, 0, 0)}); serr == nil {
+		w.Violation(i, "blank-replaced-a-watching-inner-source", "SetSource returned nil", desc)
+		return
+	}
+	calls := []struct {
+		name string
+		f    func(ctx context.Context)
+	}{
+		{"Done", func(ctx context.Context) { c.blank.Done(ctx) }},
+		{"Value", func(ctx context.Context) { c.blank.Value(ctx, dials.NewType(inner.Type())) }},
+		{"SetSource", func(ctx context.Context) { c.blank.SetSource(ctx, &conc.Src{Name: "again", Init: e.RandLayer(r, 0, 0)}) }},
+	}
+	call := calls[r.Intn(len(calls))]
+	cctx, cancel := context.WithTimeout(ctx, 200*time.Millisecond)
+	defer cancel()
+	ret := make(chan struct{})
+	go func() { call.f(cctx); close(ret) }()
+	w.Count("calls_after_a_refused_setsource", 1)
+	select {
+	case <-ret:
+		w.Distinct("blank-refusal|" + call.name)
+	case <-time.After(5 * time.Second):
+		g1 := dialsGoroutines([]string{"sourcewrap.(*Blank)"})
+		time.Sleep(300 * time.Millisecond)
+		g2 := dialsGoroutines([]string{"sourcewrap.(*Blank)"})
+		if len(g1) > 0 && len(g2) > 0 {
+			w.Violation(i, "blank-call-blocked-past-its-context:after-refused-setsource", "Blank."+call.name+" with a 200ms context is still blocked 5s later, after a refused SetSource", map[string]any{"case": desc, "goroutine": fw.TrimStack(g2[0])})
+		} else {
+			w.Inconclusive(i, "Blank."+call.name+" did not return; not provably blocked inside the Blank")
+		}
+	}
+}
+
 func runC08(w *fw.Worker) {
 	w.Cases(func(i int, r *fw.Rand) {
 		g := i*w.Shards + w.Shard
@@ -239,6 +342,10 @@ func runC08(w *fw.Worker) {
 			c08EventsPollers(w, i, r)
 		case g%40 == 23:
 			blankDoneRetry(w, i, r, "C08")
+		case g%40 == 29:
+			c08DoubleDone(w, i, r)
+		case g%40 == 31:
+			c08BlankRefusal(w, i, r)
 		case g%10 == 9:
 			c08BlockedCallback(w, i, r)
 		case g%10 == 8:
